@@ -7,7 +7,7 @@ import re
 HERE = os.path.dirname(os.path.abspath(__file__))
 
 BOUNDED = {
-    "C01": "`save/load` (A: `np.savez/np.load`), dtype matrix (iteration / `tolist` are proved for an arbitrary iteration index)",
+    "C01": "dtype matrix; the file itself in `save/load` (A: `np.load` gives back what `np.savez` stored - the library's part of the round trip is proved)",
     "C02": "end-to-end composition for selector combinations outside the e2e families (which cover rows by slice / index array / boolean mask, columns by slice or none, integer forms); column steps other than 1, 2, -1, -2, -3 only through the callee families",
     "C03": "end-to-end assignment for value kinds other than a scalar (row / column / ragged values go through `_set_data_range` and the broadcast families) and selector combinations outside the e2e families",
     "C04": "numpy's result-dtype table, dtype matrix",
@@ -30,7 +30,7 @@ BOUNDED = {
 DEFECTS = {
     "C01": "none", "C02": "4 fixed", "C03": "inherits C02's + 1 fixed (ragged mask)", "C04": "2 fixed", "C05": "5 fixed", "C06": "7 fixed",
     "C07": "1 fixed, 1 known finding (float accumulate)", "C08": "2 fixed", "C09": "1 fixed",
-    "C10": "1 known finding (lazy selection detached by a read)", "C11": "5 fixed, 1 known finding (modulus wider than an 8-bit key dtype)",
+    "C10": "1 known finding (lazy selection detached by a read)", "C11": "5 fixed, 1 known finding (explicit modulus wider than an 8- / 16-bit key dtype)",
     "C12": "same known finding", "C13": "none", "C14": "none (clamp defect of C15 shows here too)", "C15": "1 fixed", "C16": "2 fixed",
     "C17": "2 fixed", "C18": "none", "C19": "1 fixed",
 }
